@@ -658,6 +658,33 @@ func runC05InProcess(e *Env) {
 	}
 	verifhook.Set("recv.chunk.afterWrite", jit)
 	verifhook.Set("recv.chunk.afterMark", jit)
+	// overlapping flushes of the same sidecar: a background flusher (what the
+	// 1 s ticker and the signal handler's FlushAllFlushers do) runs against the
+	// receivers' own flushes, with a small delay between temp-file write and
+	// rename; every sidecar renamed into place must load (atomic replacement)
+	verifhook.Set("sidecar.flush.beforeRename", func(ev verifhook.Event) {
+		if v := vk.Mix(e.Seed ^ ev.Seq); v%2 == 0 {
+			time.Sleep(time.Duration(v%1500) * time.Microsecond)
+		}
+	})
+	stopFlusher := make(chan struct{})
+	var flusherWG sync.WaitGroup
+	for k := 0; k < 2; k++ {
+		flusherWG.Add(1)
+		go func() {
+			defer flusherWG.Done()
+			for {
+				select {
+				case <-stopFlusher:
+					return
+				default:
+				}
+				transfer.FlushAllFlushers()
+				time.Sleep(150 * time.Microsecond)
+			}
+		}()
+	}
+	defer func() { close(stopFlusher); flusherWG.Wait() }()
 	r := vk.NewRng(vk.Mix(e.Seed ^ vk.HashStr("c05inproc"+e.Tier)))
 	n := e.Pick(150, 2500)
 	var cases []xferCase
